@@ -39,3 +39,27 @@ theorem block_exists (w : ℕ → ℕ) (n t : ℕ) (h : t < PS w n) :
     · obtain ⟨c, hc, h1, h2⟩ := ih hm
       exact ⟨c, Nat.lt_succ_of_lt hc, h1, h2⟩
     · exact ⟨m, Nat.lt_succ_self m, Nat.le_of_not_lt hm, h⟩
+
+/-! Row-major numbering of the pairs (p, q), p < m, q < k, as used by `_get_iis_from_list` (np.array(list(product(rows, cols))).T)
+and by the contracts of `RaggedArray.__getitem__` for `a[lo:hi, cols]` (ghost axioms of contracts/ra_index.py):
+
+* `pair_index_lt`        : the position p*k + q of a pair lies below m*k;
+* `pair_index_decompose` : every position t is the pair (t / k, t % k), with t % k < k;
+* `pair_index_row_lt`    : and t / k < m for t < m*k.
+-/
+
+theorem pair_index_lt (m k p q : ℕ) (hp : p < m) (hq : q < k) : p * k + q < m * k := by
+  calc p * k + q < p * k + k := Nat.add_lt_add_left hq (p * k)
+    _ = (p + 1) * k := by ring
+    _ ≤ m * k := Nat.mul_le_mul_right k hp
+
+theorem pair_index_decompose (k t : ℕ) (hk : 0 < k) : t = (t / k) * k + t % k ∧ t % k < k := by
+  refine ⟨?_, Nat.mod_lt t hk⟩
+  have h := Nat.div_add_mod t k
+  rw [Nat.mul_comm] at h
+  exact h.symm
+
+theorem pair_index_row_lt (m k t : ℕ) (ht : t < m * k) : t / k < m := by
+  apply Nat.div_lt_of_lt_mul
+  rw [Nat.mul_comm]
+  exact ht
